@@ -4,6 +4,7 @@ import CobaVerif.Generated.C02GzPredicates
 import CobaVerif.Generated.C02ScanConsts
 import CobaVerif.Generated.C02MaxChunker
 import CobaVerif.Generated.C02SinkLoop
+import CobaVerif.Generated.C02Config
 open Lean Coba.J
 
 namespace Coba.C02.Driver
@@ -124,7 +125,19 @@ def handle (req : Json) : Except String Json := do
   -- phase 4: ChunkTasks/ProcessTasks order; `chunk_of`[env id] = id of the Chunk pipe or -1, `max_tasks` = maxtasksperchunk
   let chunkIds ← (← arr (fieldD req "chunk_of" (Json.arr #[]))).mapM int
   let chunkOf : Nat → Option Nat := fun e => match chunkIds[e]? with | some i => (if i < 0 then none else some i.toNat) | none => none
-  let maxTasks ← nat (fieldD req "max_tasks" (ofNat 0))
+  let maxTasks0 ← nat (fieldD req "max_tasks" (ofNat 0))
+  -- phase 6: how the configuration reaches the run: {"stored":[p,c,t],"args":[p,c,t],"ctx":[p,c,t]} (-1 = None); when given,
+  -- maxtasksperchunk of the run is COMPUTED by the model (`runCfg`) instead of being told
+  let route : Option RunConfig ← match (fieldD req "route" Json.null) with
+    | Json.null => pure none
+    | r => do
+      let st ← (← arr (← field r "stored")).mapM optN
+      let ar ← (← arr (← field r "args")).mapM optN
+      let cx ← natList (← field r "ctx")
+      match st, ar, cx with
+      | [s0, s1, s2], [a0, a1, a2], [c0, c1, c2] => pure (some ⟨⟨s0, a0, c0⟩, ⟨s1, a1, c1⟩, ⟨s2, a2, c2⟩⟩)
+      | _, _, _ => throw "route: three triples expected"
+  let maxTasks := match route with | some rc => runCfg rc.mt | none => maxTasks0
   let ordered (data : Option Bytes) : List (String × Json) :=
     match data with
     | none => []
@@ -198,6 +211,11 @@ def handle (req : Json) : Except String Json := do
              ("chunker_extracted", Json.bool Coba.Generated.C02Chunker.extracted),
              ("sink_extracted", Json.bool Coba.Generated.C02Sink.extracted),
              ("sink_batch", ofNat Coba.Generated.C02Sink.batch),
+             ("config_extracted", Json.bool Coba.Generated.C02Config.extracted),
+             ("eff_cfg", match route with
+                | some rc => Json.arr #[ofNat rc.eff.1, ofNat rc.eff.2.1, ofNat rc.eff.2.2,
+                                        Json.bool (isMultiproc rc.eff.1 rc.eff.2.1)]
+                | none => Json.null),
              ("chunker_probe", ofList (fun nm => match nm with
                 | [n, m] => Json.arr #[ofNat n, ofNat m,
                     ofList (fun (b : List Task) => ofNat b.length) (runChunker Coba.Generated.C02Chunker.prog m ((List.range n).map Task.pval)),
